@@ -498,6 +498,10 @@ impl Process {
         disposition: Disposition,
     ) -> Disposition {
         let old_disposition = self.dispositions.insert(number, disposition);
+        if disposition == Disposition::Ignore {
+            // A pending signal is discarded when it is set to be ignored.
+            self.pending_signals.remove(number).ok();
+        }
         old_disposition.unwrap_or_default()
     }
 
